@@ -14,21 +14,14 @@ TECH = ("contract-based deductive verification: sidecar pre/postconditions, loop
 # property -> (category, text, note)
 BND = " Bounded parts are labelled bounded in the evidence and never counted as proved."
 READY = {
- "C01": ("proof", "Rule layer under contract: per-tag rules (exists/extension, requireChild, deprecated, placeholder) proved as iff-clauses over an "
-         "abstract view of the resolved node (so for every schema); orchestration of validate() and run_basic_checks() proved (order, early exits, "
-         "nothing dropped, errors-only filter); parenthesis balance proved against balanced(); kind->published-code table proved by evaluation of "
-         "the extracted decorator table. Whole-string verdicts over the real schemas (valid => no error, one fault => its code): bounded workload." + BND,
-         "abstract HedTag model (has_attr/base_has_attr uninterpreted), trusted callee contracts named in evidence.trusted_base, regex engine, "
-         "format_error modelled from the decorator table"),
+ "C01": ("proof", 'Rule layer under contract: per-tag rules (exists/extension incl. every extension term, requireChild, deprecated, placeholder, forbidden characters, value text always judged by the unit / value-class / character rule) proved as iff-clauses over an abstract view of the resolved node (so for every schema); orchestration of validate() and run_basic_checks() proved (order, early exits, nothing dropped, errors-only filter); delimiter scan proved iff well-formed; parenthesis balance proved against balanced(); definition scope by identity; tags and temporal groups judged independently of their siblings (dataflow obligations); kind->published-code table proved by evaluation of the extracted decorator table. Whole-string verdicts over the real schemas (valid => no error, one fault => its code): bounded workload.' + BND,
+         'abstract HedTag model (has_attr/base_has_attr uninterpreted; cross-checked on real tags by the bounded contract searches), trusted callee contracts named in evidence.trusted_base, regex engine, format_error dispatch modelled from the decorator table (the tag-error wrappers themselves are under contract)'),
  "C02": ("proof", "Tokenizer HedString.split_hed_string proved for all strings (tiling, span characters, maximal trimmed runs) with an "
          "inductive invariant; parenthesis-mismatch reporting proved against balanced(). Tree construction (split_into_groups) and the "
          "print/re-parse round trip: bounded, exhaustive over all strings up to length 6/8 over the delimiter alphabet." + BND,
          "array encoding of strings (code points); `is` on 1-char strings as ==; HedTag/HedGroup constructors not verified (bounded only)"),
- "C03": ("proof", "Left-to-right resolution (_find_tag_entry/_find_tag_subfunction) and suffix-form registration (_get_tag_forms) proved "
-         "against the abstract view tag_view: deepest known boundary prefix, remainder verbatim, '#' child switch; sub-tag error spans in range. "
-         "Canonical-form round trips over every tag of every bundled schema: bounded (exhaustive in thorough tier)." + BND,
-         "casefold uninterpreted and assumed length-preserving on the resolved text; tag section trusted to hold exactly the registered forms "
-         "(loaders not verified); _validate_remaining_terms trusted"),
+ "C03": ("proof", "Left-to-right resolution (_find_tag_entry/_find_tag_subfunction/_validate_remaining_terms) and suffix-form registration (_get_tag_forms) proved against the abstract view tag_view: deepest known boundary prefix, remainder verbatim, '#' child switch, every extension term checked; prefix extraction; a tag is identified with the schema handed in. Canonical-form round trips over every tag of every bundled schema, conversion history across schemas: bounded (exhaustive in thorough tier)." + BND,
+         'casefold uninterpreted and assumed length-preserving on the resolved text; tag section trusted to hold exactly the registered forms (loaders not verified); str.split modelled by its exact field characterisation'),
  "C04": ("proof", "Relational property. Proved: tag equality HedTag.__eq__ is exactly 'same object, or canonical short forms equal ignoring case, or "
          "texts as written equal ignoring case' (so every spelling/case of one tag compares equal); the delimiter scan accepts exactly the "
          "well-formed delimiter structures and its verdict is insensitive to blanks around delimiters (shared with C01); the C01 rule contracts speak "
@@ -36,41 +29,24 @@ READY = {
          "and tags treat every sibling independently (no value carried between iterations, no break: dataflow obligations). Duplicate detection and "
          "whole-string verdict equality: bounded workload (all trees <= 3-4 leaves, all orderings/spellings/blank rewrites)." + BND,
          "casefold uninterpreted; HedTag model (short_tag/org_tag as fields); canonical sort (HedGroup.sorted) bounded only"),
- "C05": ("other", "Deductive kernel: the refusal to save a multi-library merge (raises before anything is written, ghost output counter) and the "
-         "selection table deciding which entries/attributes are written (_should_skip, _attribute_disallowed, flags set by process_schema for standard / "
-         "partnered merged / partnered unmerged) are proved. The file round trips themselves run through ElementTree/pandas and are decided by the "
-         "bounded workload (every bundled schema x 3 formats x merged/unmerged, generated edits, independent XML walk)." + BND,
-         "writers/readers (schema2xml/wiki/df, *2schema) not under contract; output methods modelled as ghost effects"),
- "C06": ("other", "Cell handlers (_category_handler, _value_handler) proved from the property text (n/a and empty cells are absent, listed keys select "
-         "their entry, template filled). Splicing (re.sub), pandas transforms and the frame of assemble(): bounded workload against an oracle written "
-         "from the property." + BND, "str.replace uninterpreted with three sound facts; pandas, re not modelled"),
- "C07": ("proof", "Span remapping for joined row strings proved against joined_offset (induction); error-context stack proved balanced on every path of "
-         "_run_checks/_run_onset_checks/_validate_column_structure (ghost depth). Equality with string-level validation, labels, shuffle invariance: "
-         "bounded workload." + BND, "loops of the pandas-facing functions explored as one arbitrary iteration (sound for the ghost balance); values opaque"),
- "C08": ("proof", "Brace scanner proved against braces_ok() for all strings (iff, indices in range); error-context stack proved balanced on every path of "
-         "the five sidecar-validation functions. Totality over all JSON documents to depth 3 and single-fault codes: bounded workload." + BND,
-         "array encoding of strings; opaque values in the context-balance contracts"),
- "C09": ("proof", "Name rule (_strip_value_placeholder) proved; DefValidator._validate_def_contents proved from the property text: a Def-expand group is "
-         "accepted exactly when its canonical form equals the canonical form of the declared expansion (DEF_EXPAND_INVALID otherwise), an undeclared "
-         "name is reported with the Def/Def-expand code. Declaration acceptance rules, expand/shrink typestate and copies: bounded workload "
-         "(all op sequences <= 3-4 over expand/shrink/copy/validate/str)." + BND,
-         "trusted: DefinitionEntry.get_definition as a deterministic function expansion_of, HedGroup.sorted as canon_of, structural == as an "
-         "uninterpreted relation; the filtered-list counting invariant of _validate_placeholders was not decided within budget and is not claimed"),
- "C10": ("proof", "Open-scope dictionary under contract: _handle_onset_or_offset proved against the abstract view open(self)=keys(_onsets) with whole-view "
-         "postconditions (Onset opens, Offset closes iff open else reports, Inset reports iff not open; case-insensitive name). Time-point construction "
-         "(Delay, sorting, equal onsets) and same-name-twice: bounded workload over all histories <= 3-4 markers." + BND,
-         "casefold uninterpreted; HedTag model; validate_temporal_relations' fold over markers bounded only"),
- "C11": ("proof", "Lookup rule (symbol exact, name any case), conversion factor (defined whenever accepted and declared; absent not exception), value/unit "
-         "split (prefix units) and totality of value_as_default_unit proved. Derived-unit table construction (inflect) and every bundled unit x prefix x "
-         "spelling: bounded workload (exhaustive in thorough tier)." + BND, "casefold uninterpreted; floats as reals; inflect/plural not modelled"),
- "C12": ("proof", "Offset translation proved (inside tag span, selects the sub-fragment, suffix appended only on first decoration - ghost counter), filter = "
-         "exactly the allowed-severity subset, decoration keeps every error and invents nothing, sub-tag span preconditions discharged at call sites "
-         "(C01/C03 contracts). Sorting, JSON export, end-to-end fragments: bounded workload." + BND,
-         "Issue model with ghost span fields; _get_tag_span_to_error_object and _add_context_to_errors trusted"),
- "C13": ("proof", "Prefix extraction (_get_schema_namespace), prefix syntax (set_schema_prefix: alphabetic, ':' appended, HedFileError otherwise) and the "
-         "dispatch of HedSchemaGroup.find_tag_entry (resolved by the schema owning the prefix and no other; unloaded prefix is an error) proved. "
-         "Prefixed-vs-alone verdict equality, partnered-library content and refusal cases: bounded workload over all offline pairings." + BND,
-         "tag_view abstract view shared with C03; isalpha exact on ASCII, uninterpreted elsewhere; loaders not verified"),
+ "C05": ("other", 'Deductive kernel: the refusal to save a multi-library merge (raises before anything is written, ghost output counter), the selection table deciding which entries/attributes are written (_should_skip, _attribute_disallowed, flags set by process_schema) and the independence of the writer loops over unit classes / section entries (dataflow obligations) are proved. The file round trips themselves run through ElementTree/pandas and are decided by the bounded workload (every bundled schema x 3 formats x merged/unmerged, generated edits, independent XML walk).' + BND,
+         'writers/readers (schema2xml/wiki/df, *2schema) not under contract; output methods modelled as ghost effects'),
+ "C06": ("other", 'Cell handlers (_category_handler, _value_handler) proved from the property text (n/a and empty cells are absent, listed keys select their entry, template filled); reset_column_mapper keeps the sidecar used for references and for transformers the same object. Splicing (re.sub), pandas transforms and the frame of assemble(): bounded workload against an oracle written from the property.' + BND,
+         'str.replace uninterpreted with three sound facts; pandas, re not modelled; ColumnMapper constructor trusted'),
+ "C07": ("proof", 'Span remapping for joined row strings proved against joined_offset (induction); error-context stack balanced on every path of validate/_run_checks/_run_onset_checks/_validate_column_structure and, at every site that stamps context onto issues, the ROW context equals the index of the row being processed + row_adj, row_adj = 1 + header, column/string contexts as the property says (ghost context stack); rows judged independently (dataflow); every phase called. Equality with string-level validation, shuffle invariance, totality: bounded workload.' + BND,
+         'loops of the pandas-facing functions explored as one arbitrary iteration (sound for the per-iteration ghost clauses); table values opaque'),
+ "C08": ("proof", 'Brace scanner proved against braces_ok() for all strings (iff, indices in range); error-context stack balanced and the contexts in force at every stamping site of the five sidecar-validation functions as the property says; placeholder count taken after removing definitions and shrinking expansions; the definition placeholder rule (shared with C09). Totality over all JSON documents to depth 3 and single-fault codes: bounded workload.' + BND,
+         'array encoding of strings; opaque values in the context contracts; tree surgery (remove_definitions/shrink_defs) seen through the text view'),
+ "C09": ("proof", "Name rule, duplicate rule (first entry kept, reported once), placeholder rule (rejection directions; '#' tags of the whole content at any depth), Def-expand comparison up to sibling order, and copy ownership (HedTag.__deepcopy__ / HedGroup.copy share no expansion state with the original) proved. Expand/shrink typestate over operation sequences incl. copies: bounded workload (all op sequences <= 3-4)." + BND,
+         'trusted: DefinitionEntry.get_definition as a deterministic function, HedGroup.sorted as canon_of, get_all_tags as all_tags_of; copy.deepcopy modelled as allocation/memo lookup; two acceptance directions of the placeholder rule undecided on two paths and not claimed'),
+ "C10": ("proof", 'Open-scope dictionary under contract: _handle_onset_or_offset proved against the abstract view open(self)=keys(_onsets) with whole-view postconditions; the fold over the markers of one time point (same name twice); a fresh scope table per validated file; temporal groups judged independently. Time-point construction (Delay, sorting, equal onsets): bounded workload over all histories <= 3-4 markers.' + BND,
+         'casefold uninterpreted; HedTag model; find_top_level_tags / find_def_tags trusted'),
+ "C11": ("proof", "Lookup rule (symbol exact, name any case), conversion factor (defined whenever accepted; unit x prefix with '^' as power of ten), value/unit split (prefix units), totality of value_as_default_unit, the unit rule (extra text before a unit is invalid, missing-unit note) and the dispatch of validate_units proved. Derived-unit table construction (inflect) and every bundled unit x prefix x spelling: bounded workload (exhaustive in thorough tier)." + BND,
+         'casefold uninterpreted; floats as reals (no NaN); inflect/plural not modelled; get_stripped_unit_value / _check_value_class trusted'),
+ "C12": ("proof", 'Offset translation proved (inside tag span, selects the sub-fragment, suffix appended only on first decoration), filter = exactly the allowed-severity subset, decoration keeps every error and invents nothing, sub-tag span preconditions discharged at call sites, and the REAL @hed_tag_error wrappers proved (fragment quoted = fragment the indices select, indices and tag stored, published code). Sorting, JSON export, end-to-end fragments: bounded workload.' + BND,
+         'Issue model with ghost span fields; _create_error_object, _get_tag_span_to_error_object and _add_context_to_errors trusted; the message function is an unknown callable'),
+ "C13": ("proof", 'Prefix extraction, prefix syntax (set_schema_prefix), dispatch of HedSchemaGroup.find_tag_entry and of a single HedSchema (answers only for its own prefix, also the empty one), and identification with the schema handed in proved. Prefixed-vs-alone verdict equality, partnered-library content, refusal cases, parse-with-S1/validate-with-S2 histories: bounded workload over all offline pairings.' + BND,
+         'tag_view abstract view shared with C03; isalpha exact on ASCII, uninterpreted elsewhere; loaders not verified'),
  "C14": ("proof", "Attribute validators conversion_factor, unit_exists, tag_is_placeholder_check and in_library_check (whole comma-separated field, not substring) "
          "proved as iff/implication clauses with the published code. "
          "Acceptance of all bundled schemas and seeded faults at sampled positions: bounded workload." + BND,
@@ -78,25 +54,16 @@ READY = {
  "C15": ("proof", "Result merging (identity-union of tags, same group, ValueError iff groups differ) and has_same_tags proved. Term matching, Or/And laws, "
          "sibling-order invariance, frame and parser totality: bounded workload (5.7M evaluations quick)." + BND,
          "structural == of HedGroup uninterpreted reflexive relation; sort modelled as a permutation"),
- "C16": ("proof", "Applicability test is_sidecar_for proved iff the property's condition (same file, or same suffix, ancestor directory, every entity "
-         "matched) with an invariant over the entity dictionary. Discovery, merge order, dataset/CLI agreement: bounded workload on generated trees." + BND,
-         "os.path.commonpath/dirname uninterpreted; dict iteration as an order-free enumeration"),
- "C17": ("proof", "Purity as frame obligations: every in-place update in do_op of the eight operations targets an object allocated in the call (pandas "
-         "effect table); None-safety of optional parameters proved through __init__ class invariants. Table meaning per operation: bounded workload." + BND,
-         "pandas effect table (methods return new objects unless inplace/known mutators); loops explored as one arbitrary iteration"),
- "C18": ("proof", "create_backup proved: never overwrites, copies precede the record, record written last and lists every file (ghost file-system trace, loop "
-         "invariant); restore writes only recorded originals; task filter rule. Crash injection and byte identity: bounded workload." + BND,
-         "file-system extern models (copy completes before returning, json.dump prefix invalid), uninterpreted path functions"),
- "C19": ("proof", "Three sequential disciplines proved: lock held on return from __enter__ and released on exit, population only under the lock; no non-atomic "
-         "copy to a served name (publication by os.replace); bookkeeping total (torn timestamp reads as 0). Interleavings/crash points themselves are "
-         "reduced to these disciplines plus OS assumptions; fault injection: bounded workload." + BND,
-         "portalocker/flock exclusivity, rename atomicity, extern file-system models; multi-process schedules not explored"),
- "C20": ("proof", "_extract_context under contract (three nested loops, inductive invariants over the nested context lists): every process that "
-         "covers a time point - started at a strictly earlier time point and not ended - is listed in that point's context, every process is listed "
-         "at its start point, and no index leaves the table. The converse (nothing else is listed), the scan that opens/closes processes, Duration "
-         "bisection, Delay shifting: bounded workload over all valid histories <= 4-5 rows against contexts_spec." + BND,
-         "data-structure invariant of the event list (indices in range) is a precondition exercised by the workload; floats as reals; "
-         "compress_strings trusted"),
+ "C16": ("proof", "Applicability test is_sidecar_for proved iff the property's condition; the per-directory choice (first applicable sidecar, None iff none applies) proved. Discovery, root-to-leaf merge order, dataset/CLI agreement: bounded workload on generated trees." + BND,
+         'os.path.commonpath/dirname uninterpreted; dict iteration as an order-free enumeration'),
+ "C17": ("proof", 'Purity as frame obligations: every in-place update in do_op of the eight operations targets an object allocated in the call (pandas effect table); None-safety of optional parameters through __init__ class invariants; run_operations typestate (each operation runs on the prepared table); remap_columns validation (entry lengths). Table meaning per operation, chained operations: bounded workload.' + BND,
+         'pandas effect table (methods return new objects unless inplace/known mutators); loops explored as one arbitrary iteration'),
+ "C18": ("proof", 'create_backup proved: never overwrites, copies precede the record, record written last and lists every file (ghost file-system trace, loop invariant); restore writes only recorded originals; task filter rule; the dispatcher reads the backup copy only. Crash injection, byte identity, CLI order: bounded workload.' + BND,
+         'file-system extern models (copy completes before returning, json.dump prefix invalid), uninterpreted path functions'),
+ "C19": ("proof", 'Sequential disciplines proved: lock held on return from __enter__ and released on exit, the lock file is never unlinked, population only under the lock; no non-atomic copy to a served name (publication by os.replace); bookkeeping total (torn timestamp reads as 0). Interleavings/crash points themselves are reduced to these disciplines plus OS assumptions; fault injection and two-process schedules: bounded workload.' + BND,
+         'portalocker/flock exclusivity, rename atomicity, extern file-system models; multi-process schedules not explored symbolically'),
+ "C20": ("proof", "_extract_context under contract (three nested loops, inductive invariants): every process that covers a time point is listed in that point's context, every process at its start point, no index leaves the table; the end of a Duration process is its start plus THAT tag's value (_split_group). The converse (nothing else is listed), the scan that opens/closes processes, Duration bisection, Delay shifting: bounded workload over all valid histories <= 4-5 rows against contexts_spec." + BND,
+         'data-structure invariant of the event list is a precondition exercised by the workload; floats as reals; compress_strings trusted'),
 }
 
 PENDING_REASON = "not claimed"
